@@ -854,6 +854,7 @@ fn corpus(p: Prop) -> Vec<(SCase, LenStyle)> {
         astar: None,
         query_wf: None,
         svc: None,
+        term_via_builder: false,
     };
     let mut v = vec![];
     match p {
@@ -950,6 +951,7 @@ fn stale_link_witness(turn_restriction: bool) -> SCase {
         astar: Some(Some(1.0)),
         query_wf: None,
         svc: None,
+        term_via_builder: false,
     }
 }
 
@@ -1153,6 +1155,24 @@ fn shape_for(p: Prop, c: &mut SCase, rng: &mut Rng) {
                     1 => Term::Size(rng.below(n_v + 2)),
                     _ => Term::Runtime { limit_ns: 1000 * (1 + rng.below(10)) as u64, freq: 1 + rng.below(4) as u64, base_ns: rng.below(3000) as u64, per_ns: (rng.below(4) * 700) as u64 },
                 };
+            }
+            if rng.chance(1, 3) {
+                // through the application's builder: runtime limits in whole seconds, clock in seconds
+                fn to_secs(t: &mut Term, rng: &mut Rng) {
+                    match t {
+                        Term::Runtime { limit_ns, base_ns, per_ns, .. } => {
+                            *limit_ns = (rng.below(5) as u64) * 1_000_000_000;
+                            *base_ns = (rng.below(4) as u64) * 700_000_000;
+                            *per_ns = (rng.below(4) as u64) * 600_000_000;
+                        }
+                        Term::Combined(ms) => ms.iter_mut().for_each(|m| to_secs(m, rng)),
+                        _ => {}
+                    }
+                }
+                to_secs(&mut c.term, rng);
+                let clock = (((rng.below(4)) as u64) * 700_000_000, ((rng.below(4)) as u64) * 600_000_000);
+                normalise_clock(&mut c.term, clock);
+                c.term_via_builder = true;
             }
         }
         _ => {}
